@@ -11,7 +11,7 @@ import gen_kern as G
 
 ID = "C09"
 LEAN_MODULES = ["CatiiProps.C09"]
-USES_TRANSLATOR = True   # Gen/KernelsGen.lean is rewritten from the current set_operations.pyx (tools/translate_pyx.py)
+USES_TRANSLATOR = ['kernels']   # Gen/KernelsGen.lean is rewritten from the current set_operations.pyx (tools/translate_pyx.py)
 RULE = ("same exhaustive spaces as C08 (every empty/non-empty combination and exhaustion order up to 6/8 elements; the k-way union over all lists of <=3 subsets of [0, 3, 2^32-1]) plus "
         "operands sharing 65537 .. 70000 row ids (twin only); random pairs over eleven overlap patterns (incl. lengths 1-4 against 65-5000; contiguous, embedded, strided and backwards views of buffers whose other words belong to neither operand, a stray word in the result being a read outside the inputs), unsorted and duplicate-carrying random arrays; each case runs the bounds-checked twin (IndexError per "
         "out-of-range source-level access) and the model (Err per checked access); non-trivial = at least one operand "
